@@ -133,6 +133,9 @@ func loadConfig(repo string, c Config) (*Prog, error) {
 		if !p.InModule(fn) {
 			continue
 		}
+		if fn.TypeParams().Len() > 0 && len(fn.TypeArgs()) == 0 {
+			continue // generic origin: its instantiations are analysed instead
+		}
 		p.ModFuncs = append(p.ModFuncs, fn)
 	}
 	sort.Slice(p.ModFuncs, func(i, j int) bool { return p.FuncID(p.ModFuncs[i]) < p.FuncID(p.ModFuncs[j]) })
